@@ -415,6 +415,15 @@ def gen_rel(rng, kind=None, depth=0, counter=None):
             # the dataset is already guarded: ... >> CheckIds() >> <layers that change ids> >> CheckIds()
             layers.append({'k': 'check_ids'})
         if kind == 'filter':
+            renamed = kind == 'filter' and rng.random() < 0.25
+            if renamed:
+                # a layer that REDEFINES the field `id` (entry 'i3' has the id field 'ri3'): predicates over `id`, keep and drop
+                # are about the entry's field, not about the key it is asked by
+                counter[0] += 1
+                layers.append({'k': 'transform', 'cls': f'RID{counter[0]}', 'params': {}, 'cargs': {}, 'defaults': {}, 'inherit': True,
+                               'fields': {'id': {'args': ['id'], 'f': f'RID{counter[0]}.id',
+                                                 'table': [[[i], 'r' + i] for i in UNIVERSE + FOREIGN]}}})
+            pool_ids = UNIVERSE + (['r' + i for i in UNIVERSE] * 2 if renamed else [])
             for _ in range(rng.choice([1, 1, 2])):
                 r = rng.random()
                 if r < 0.6:
@@ -422,9 +431,9 @@ def gen_rel(rng, kind=None, depth=0, counter=None):
                     finish_pred(p, ref({'k': 'chain', 'layers': layers}))
                     layers.append(p)
                 elif r < 0.8:
-                    layers.append({'k': 'keep', 'ids': rng.sample(UNIVERSE, 3), 'form': rng.choice(IDS_FORMS)})
+                    layers.append({'k': 'keep', 'ids': rng.sample(pool_ids, 3 + 3 * renamed), 'form': rng.choice(IDS_FORMS)})
                 else:
-                    layers.append({'k': 'drop', 'ids': rng.sample(UNIVERSE, 2), 'form': rng.choice(IDS_FORMS)})
+                    layers.append({'k': 'drop', 'ids': rng.sample(pool_ids, 2 + 3 * renamed), 'form': rng.choice(IDS_FORMS)})
             if rng.random() < 0.4:
                 layers.append({'k': 'check_ids'})
         elif kind == 'check_ids':
